@@ -175,6 +175,9 @@ def _operand(draw, fam, zero_ok, plain, near=None):
     return o
 
 
+_ALIAS = st.integers(0, 7)
+
+
 @st.composite
 def _case(draw):
     op = draw(_OP)
@@ -186,6 +189,8 @@ def _case(draw):
     kind = draw(_KIND)
     a = _operand(draw, fa, True, kind == "qm")
     b = _operand(draw, fb, op != "div", kind == "mq", near=a["u"] if fb == fa else None)
+    if kind == "mm" and draw(_ALIAS) == 0 and not (op == "div" and Fraction(_number(a["v"], "v")) == 0):
+        return {"op": op, "a": a, "b": dict(a), "alias": True}
     return {"op": op, "a": a, "b": b}
 
 
@@ -194,6 +199,11 @@ def strategy(tier):
 
 
 def enumerate_cases(tier):
+    yield from _alias_cases()
+    yield from _grid_cases(tier)
+
+
+def _grid_cases(tier):
     """A fixed grid that is run on every seed: every operator x sign pattern (incl. zero
     measurands) x sigma zero/non-zero x operand kinds x n, over three unit pairs and the
     three magnitude types."""
@@ -249,6 +259,15 @@ def enumerate_cases(tier):
 
 class _Bad(Exception):
     pass
+
+
+def _alias_cases():
+    """the same Measurement object on both sides of every binary operator"""
+    for op in ("add", "sub", "mul", "div"):
+        for v, sg in ((["int", 3], ["float", 0.2]), (["float", -2.5], ["float", 0.1]), (["dec", "4.0"], ["dec", "0.5"]), (["int", 7], ["int", 0])):
+            for u, alt in ((["", "meter"], ["", "foot"]), (["kilo", "gram"], ["", "pound"])):
+                a = {"v": v, "s": sg, "u": u, "alt": alt, "plain": False}
+                yield {"op": op, "a": a, "b": dict(a), "alias": True}
 
 
 def _number(spec, what):
@@ -425,6 +444,9 @@ class _Run:
     __slots__ = ("ok", "mv", "sv", "tol_m", "tol_s", "scale", "es", "text")
 
 
+ALIAS = [False]
+
+
 def _one_run(out, fails, op, n, A, B, tag):
     """Executes one spelling of the case and judges it against the oracle."""
     run = _Run()
@@ -440,7 +462,13 @@ def _one_run(out, fails, op, n, A, B, tag):
     run.scale, run.es = scale, es
 
     try:
-        r = _apply(op, n, A.build(), None if B is None else B.build())
+        if ALIAS[0] and B is not None and not A.plain and not B.plain:
+            # the very same Measurement object on both sides: the library tracks no
+            # correlations, so the documented rule for independent inputs applies as well
+            obj = A.build()
+            r = _apply(op, n, obj, obj)
+        else:
+            r = _apply(op, n, A.build(), None if B is None else B.build())
     except Exception as e:  # noqa: BLE001 -- every escaping exception is a verdict
         if zero and isinstance(e, (ZeroDivisionError, decimal.InvalidOperation)):
             fails(f"C14:{op}:zero-measurand:ZeroDivisionError", f"{text} raised {type(e).__name__}: {e} at {core.innermost_frame(e)}; expected measurand {_f(ev)}, sigma {_f(es)} (SI)")
@@ -534,8 +562,15 @@ def run_case(case) -> core.Outcome:
             seen.add(bucket)
             out.fail(bucket, detail)
 
-    r1 = _one_run(out, fails, op, n, A, B, "as written")
-    r2 = _one_run(out, fails, op, n, A2, B2, "re-expressed")
+    alias = bool(isinstance(case, dict) and case.get("alias")) and B is not None and case.get("a") == case.get("b")
+    ALIAS[0] = alias
+    try:
+        r1 = _one_run(out, fails, op, n, A, B, "as written" + (", same object on both sides" if alias else ""))
+        r2 = _one_run(out, fails, op, n, A2, B2, "re-expressed" + (", same object on both sides" if alias else ""))
+    finally:
+        ALIAS[0] = False
+    if alias:
+        out.classes.append("alias:same-object")
 
     # the result does not depend on the units in which the operands are expressed.  Both
     # runs were judged against one unit-free oracle, so this can only add something when
